@@ -50,6 +50,8 @@ def main():
         ctx.rule = getattr(mod, "RULE", "")
         ctx.assumptions = list(getattr(mod, "ASSUMPTIONS", []))
         ctx.lean_audit(getattr(mod, "LEAN_MODULES", []))
+        ctx.start_run_clock()
+        ctx.is_replay = bool(args.replay)
         if args.replay:
             rep = json.load(open(args.replay))
             mod.replay(ctx, rep)
